@@ -231,6 +231,8 @@ func removeTok(parent *etree.Element, tok etree.Token) {
 	}
 }
 
+var unusualRelayStates = []string{"st\x00ate", "\x00", "st\xffate\xfe", "\xc3(", "caf\xe9", " padded ", "\ttab\r\n", "a+b&c=d%25", "désirée-€-𝄞", "trailing\n", "\ufeffbom", "a\u2028b"}
+
 var c05Mutations = []c05Mutation{
 	// ---- controls ----
 	{"valid_signed", func(c *c05Case) {
@@ -239,6 +241,13 @@ var c05Mutations = []c05Mutation{
 		} else {
 			c.setPost(c.signedPost(c.Node, c.keyA(), spsim.XMLSignOpts{Alg: c.Alg, DropKey: c.rng.Intn(3) == 0}))
 		}
+	}},
+	// a validly signed redirect message whose RelayState has bytes a storage layer may not like: accepted or not, what
+	// is acted on is what was signed
+	{"valid_signed_unusual_relay_state", func(c *c05Case) {
+		c.Binding = "redirect"
+		c.HasRelay, c.Relay = true, unusualRelayStates[c.rng.Intn(len(unusualRelayStates))]+plainString(c.rng, 3)
+		c.setRedirect(c.signedRedirect(c.Node, c.keyA(), c.Relay, c.HasRelay, c.Alg))
 	}},
 	{"unsigned", func(c *c05Case) {
 		x := c.unsignedXML(c.Node)
@@ -747,7 +756,7 @@ func c05Run(r *core.Run, idx int, rng *rand.Rand) {
 		if rng.Intn(4) == 0 {
 			// values a storage layer may not like (NUL, bytes that are no UTF-8, controls, blanks at the ends, characters
 			// with a meaning in URLs): what was signed is what has to be acted on, byte for byte
-			c.Relay = []string{"st\x00ate", "\x00", "st\xffate\xfe", "\xc3(", "caf\xe9", " padded ", "\ttab\r\n", "a+b&c=d%25", "désirée-€-𝄞", "trailing\n", "\ufeffbom", "a\u2028b"}[rng.Intn(12)] + plainString(rng, 3)
+			c.Relay = unusualRelayStates[rng.Intn(len(unusualRelayStates))] + plainString(rng, 3)
 			r.Count("relay_states_with_unusual_bytes", 1)
 		}
 	}
